@@ -804,8 +804,25 @@ class Segment:
         self._lift()
         self._alias_pass()
         self._aux_alias_pass()
+        self._moved_dead_pass()
         if parent is None and loop is None:
             self._sizediff_pass()
+
+    def _moved_dead_pass(self):
+        """`std::move(e.m_value)` out of an entry that this same path removes from the index (releasing / handing out the value of a
+        victim or of an erased entry): the moved-from slot is free storage, nothing reads it before the next insert overwrites it"""
+        mv = [e for e in self.effects if e.kind == 'VAL' and isinstance(e.val, tuple) and e.val and e.val[0] == 'moved']
+        if not mv:
+            return
+        from rules_seq import same_ent
+        gone = [u.ent for u in self.effects if u.kind == 'UNBIND' and isinstance(u.ent, Ent)]
+        for e in mv:
+            if isinstance(e.ent, Ent) and any(same_ent(e.ent, g) for g in gone):
+                e.kind = 'INERT_WR'
+                continue
+            i = self.effects.index(e)
+            if any(w.kind == 'VAL' and w is not e and getattr(w, 'loc', None) == e.loc for w in self.effects[i + 1:]):
+                e.kind = 'INERT_WR'         # the old value is moved out and the slot is given its new value on the same path
 
     def countdown_guard(self, lp, segs, exits):
         """`for (size_t visited = 0, in_use = m_used_size; visited < in_use; ++visited) { ...removes one entry or leaves... }`: every
